@@ -1,6 +1,6 @@
 (* ABI entries for C18 *)
 From Coq Require Import List NArith Arith Bool FMapPositive.
-From MDW Require Import Bytes DsoDebug DsoStream MemInfo AbiBase.
+From MDW Require Import Bytes DsoDebug DsoStream MemInfo Auxv AbiBase.
 Import ListNotations.
 Local Open Scope N_scope.
 
@@ -33,6 +33,20 @@ Definition entry_c18_dso (args : list N) : list N :=
                  :: flat_map (fun '(a, nm, ld) => a :: ld :: enc_vec nm) (d_entries o)
       | DErr => [1]
       | DUnspec => [3]
+      end
+  | _ => []
+  end.
+
+(* the same with the auxiliary values RESOLVED by the model of the writer's auxv handling:
+   [direct phnum; direct phdr; direct gate; direct entry; file readable?; auxv bytes (vec); nregions; regions...] *)
+Definition entry_c18_dso_auxv (args : list N) : list N :=
+  match args with
+  | dn :: dp :: dg :: de :: hf :: rest =>
+      let '(file, rest1) := take_vec rest in
+      let r := resolve dn dp dg de (if n2b hf then Some file else None) in
+      match r_phdr r, r_phnum r with
+      | Some phdr, Some phnum => entry_c18_dso (phdr :: phnum :: rest1)
+      | _, _ => [1]
       end
   | _ => []
   end.
